@@ -582,7 +582,16 @@ func suiteC01(c *ctx) {
 						if i := bytes.IndexByte(line, '\n'); i >= 0 {
 							line = line[:i+1]
 						}
-						os.WriteFile(filepath.Join(h.base, f.name), append(append([]byte(nil), line...), aux...), 0600)
+						rec := append(append([]byte(nil), line...), aux...)
+						if r.Intn(4) == 0 {
+							// … or the record was provisioned by a tool that leaves the hash line unterminated
+							// (printf '%s', an editor that strips the final newline), or terminates it with CR LF
+							rec = bytes.TrimRight(line, "\n")
+							if r.Intn(3) == 0 {
+								rec = append(rec, '\r', '\n')
+							}
+						}
+						os.WriteFile(filepath.Join(h.base, f.name), rec, 0600)
 					}
 				}
 			case x < 10:
